@@ -309,3 +309,21 @@ class Verdict:
             print(f"INCONCLUSIVE property={self.prop} " + "; ".join(reasons))
             return 2
         return 0
+
+
+class TimedOut:
+    """stand-in for a CompletedProcess when the child did not finish (the library's merge closure is exponential on some inputs):
+    the caller records the case as inconclusive, never as a verdict"""
+    timed_out = True
+    returncode = None
+
+    def __init__(self, text):
+        self.stdout = "" if text else b""
+        self.stderr = "timeout" if text else b"timeout"
+
+
+def run_bounded(cmd, timeout=120, **kw):
+    try:
+        return subprocess.run(cmd, timeout=timeout, **kw)
+    except subprocess.TimeoutExpired:
+        return TimedOut(kw.get("text"))
